@@ -12,6 +12,15 @@
 (* nil, nested map, array, msgpack timestamp; JSON paths: JSON values),    *)
 (* "s1"/"s2" = values Refinery sets, "-" = absent.                         *)
 (*                                                                         *)
+(* Besides the universe below, every event of the harness carries one      *)
+(* constant client field per value of its pool (kf.00 .. kf.15: every wire *)
+(* type incl. uint64 extremes, float32, int64-format small ints, bin, nil, *)
+(* arrays, maps), all of them key fields of the destination's sampler: the *)
+(* KeyPaths constructors memoize them (CoreFieldsUnmarshaler with sampling  *)
+(* key fields), MemoizeFields(KeyFields) memoizes them on the other paths,  *)
+(* and after every step each must be forwarded with the type family and    *)
+(* exact value sent ("c" for every one of them, so they are not variables). *)
+(*                                                                         *)
 (* Actions = the real API: Construct (one per ingestion path), Extract-    *)
 (* Metadata, MemoizeFields(keys), Set(name, value) and the queries Get,    *)
 (* Exists, All, MarshalMsg, MarshalJSON (abstractly no-ops; the harness    *)
